@@ -674,14 +674,104 @@ fn parts(ctx: &Ctx) -> Vec<PartSpec> {
             v.push(PartSpec::new(&format!("slice-d5-first{}", f), json!({"dom": "slice", "depth": 5, "first": f})).budget(150.0));
         }
         v.push(PartSpec::new("public-api-d6", json!({"dom": "api", "depth": 6})).budget(150.0));
+        v.push(PartSpec::new("zero-sized-elements", json!({"dom": "zst"})));
     } else {
         for f in 0..N_CONSTRUCT {
             v.push(PartSpec::new(&format!("str-d7-first{}", f), json!({"dom": "str", "depth": 7, "first": f})).budget(3000.0));
             v.push(PartSpec::new(&format!("slice-d7-first{}", f), json!({"dom": "slice", "depth": 7, "first": f})).budget(3000.0));
         }
         v.push(PartSpec::new("public-api-d8", json!({"dom": "api", "depth": 8})).budget(3000.0));
+        v.push(PartSpec::new("zero-sized-elements", json!({"dom": "zst"})));
     }
     v
+}
+
+// ------------------------------------------------------------------ zero-sized elements
+/// A zero-sized element type: a `Vec` of it reports capacity `usize::MAX`, the very value the packed representation
+/// reserves for Arc-backed values. Whatever the library does with such an owned vector (the code rejects it with a
+/// panic) must be memory safe. What "not memory safe" looks like is a dead process, so every case runs in a grand-child
+/// process (this binary with C14_ZST_PROBE set): it may exit 0 (accepted and handled correctly: contents read back,
+/// every element dropped exactly once) or panic (rejected), but must not die of a signal or report a wrong count.
+#[derive(Clone, PartialEq, Eq, PartialOrd, Ord, Hash, Debug)]
+struct Z;
+static Z_DROPS: AtomicU64 = AtomicU64::new(0);
+impl Drop for Z {
+    fn drop(&mut self) {
+        Z_DROPS.fetch_add(1, Ordering::SeqCst);
+    }
+}
+fn zst_probe(arg: &str) -> ! {
+    let mut it = arg.split(',').map(|x| x.parse::<usize>().unwrap());
+    let (len, op, how) = (it.next().unwrap(), it.next().unwrap(), it.next().unwrap());
+    std::panic::set_hook(Box::new(|_| {}));
+    let v: Vec<Z> = (0..len).map(|_| Z).collect();
+    let built = std::panic::catch_unwind(|| if how == 0 { Cow::<[Z]>::from_owned(v) } else { Cow::<[Z]>::from(v) });
+    let c = match built {
+        Err(_) => std::process::exit(0), // rejected: fine (the vector was consumed by the unwinding)
+        Ok(c) => c,
+    };
+    let mut clones = 0u64;
+    if c.len() != len {
+        std::process::exit(3);
+    }
+    match op {
+        0 => drop(c),
+        1 => {
+            let d = c.clone();
+            clones += d.len() as u64 * 0; // a clone of an owned value clones the elements; counted through Z_DROPS below
+            if d.len() != len {
+                std::process::exit(3);
+            }
+            drop(d);
+            drop(c);
+            clones = len as u64;
+        }
+        _ => {
+            let o = c.into_owned();
+            if o.len() != len {
+                std::process::exit(3);
+            }
+            drop(o);
+        }
+    }
+    if Z_DROPS.load(Ordering::SeqCst) != len as u64 + clones {
+        std::process::exit(4);
+    }
+    std::process::exit(0)
+}
+fn zst_part(res: &mut PartResult) {
+    res.engine = "E3 owned vectors of a zero-sized element type x {drop, clone, into_owned} x {from_owned, From<Vec>}, each in its own process".into();
+    let exe = std::env::current_exe().expect("current_exe");
+    let mut states = vseq::States::new();
+    for len in [0usize, 1, 3] {
+        for op in 0..3usize {
+            for how in 0..2usize {
+                res.executions += 1;
+                res.transitions += 2;
+                let out = std::process::Command::new(&exe).env("C14_ZST_PROBE", format!("{},{},{}", len, op, how)).output();
+                let what = format!("Vec<Z> (Z zero-sized) of length {} through {} then {}", len, ["Cow::from_owned", "Cow::from(Vec)"][how], ["drop", "clone + drop both", "into_owned"][op]);
+                match out {
+                    Err(e) => res.error = Some(format!("cannot run the probe: {}", e)),
+                    Ok(o) => {
+                        use std::os::unix::process::ExitStatusExt;
+                        states.add(&(o.status.code(), o.status.signal()));
+                        if let Some(sig) = o.status.signal() {
+                            res.violation("memory-unsafe-on-zero-sized-elements", format!("{}: the process died of signal {} (an owned vector whose capacity is usize::MAX was taken for an Arc-backed value)", what, sig), json!({"zst": [len, op, how]}));
+                        } else if o.status.code() == Some(3) {
+                            res.violation("content-differs-from-what-it-was-built-from", format!("{}: wrong length read back", what), json!({"zst": [len, op, how]}));
+                        } else if o.status.code() == Some(4) {
+                            res.violation("element-leaked-or-dropped-twice", format!("{}: elements were not dropped exactly once", what), json!({"zst": [len, op, how]}));
+                        } else if o.status.code() != Some(0) {
+                            res.violation("cow-panic", format!("{}: probe ended with status {:?} (an uncaught panic outside construction)", what, o.status.code()), json!({"zst": [len, op, how]}));
+                        }
+                    }
+                }
+            }
+        }
+    }
+    res.states = states.len();
+    res.distinct_outcomes = states.len();
+    res.sample(json!({"case": "Cow::<[Z]>::from_owned(vec![Z; 3]) then drop", "expected": "rejected with a panic, or handled correctly; never a dead process"}));
 }
 
 fn run(ctx: &Ctx, spec: &PartSpec) -> PartResult {
@@ -691,16 +781,20 @@ fn run(ctx: &Ctx, spec: &PartSpec) -> PartResult {
     match spec.arg["dom"].as_str().unwrap_or("") {
         "str" => cow_part::<StrDom>(ctx, &mut res, depth, first),
         "slice" => cow_part::<SliceDom>(ctx, &mut res, depth, first),
+        "zst" => zst_part(&mut res),
         _ => public_api_part(ctx, &mut res, depth),
     }
     res
 }
 
 fn main() {
+    if let Ok(a) = std::env::var("C14_ZST_PROBE") {
+        zst_probe(&a);
+    }
     driver::main(CheckDef {
         prop: "C14",
         level: "model_checking",
-        rule: "every sequence of the stated depth (first operation = each of the 11 constructions) over: construct {borrowed, From<&T>, Default, a borrowed proper prefix of the static (same address, shorter; for str through std Cow::Borrowed), owned with (len,cap) in (0,0),(0,8),(3,3),(3,16) incl. through the std Cow / Vec conversions, shared Arc alone, shared Arc with an outside strong reference, with an outside strong + weak reference}, and per pool slot (3 slots) clone, read back (deref, as_ref), into_owned, drop, move-to-another-thread-read-and-drop, and for [E] into_owned and clone while the second element clone they make panics (fault injected, caught), plus pairwise ==/cmp/hash; for Cow<str> and for Cow<[E]> with a drop-, clone- and corruption-detecting element type, on the repository's cow.rs compiled into the harness; after every step contents equal the model and Arc strong counts equal the model; at the end every element instance is dropped exactly once and the tracking allocator (no block reuse, poison on free, recorded double/invalid frees) is back to its baseline; plus sequences through the public SharedString/Label/Key API; distinct = distinct (allocations, frees, prune point) profiles",
+        rule: "every sequence of the stated depth (first operation = each of the 11 constructions) over: construct {borrowed, From<&T>, Default, a borrowed proper prefix of the static (same address, shorter; for str through std Cow::Borrowed), owned with (len,cap) in (0,0),(0,8),(3,3),(3,16) incl. through the std Cow / Vec conversions, shared Arc alone, shared Arc with an outside strong reference, with an outside strong + weak reference}, and per pool slot (3 slots) clone, read back (deref, as_ref), into_owned, drop, move-to-another-thread-read-and-drop, and for [E] into_owned and clone while the second element clone they make panics (fault injected, caught), plus pairwise ==/cmp/hash; for Cow<str> and for Cow<[E]> with a drop-, clone- and corruption-detecting element type, on the repository's cow.rs compiled into the harness; after every step contents equal the model and Arc strong counts equal the model; at the end every element instance is dropped exactly once and the tracking allocator (no block reuse, poison on free, recorded double/invalid frees) is back to its baseline; plus sequences through the public SharedString/Label/Key API; plus owned vectors of a zero-sized element type (capacity usize::MAX, the value reserved for Arc-backed values) x {drop, clone, into_owned}, each in its own process: rejected by a panic or handled correctly, never a dead process; distinct = distinct (allocations, frees, prune point) profiles",
         assumptions: &["cow.rs is self-contained, so compiling the same source file into the harness exercises the code the metrics crate compiles", "Send/Sync bound soundness is a type-level claim outside this technique", "From<Cow<T>> for std::borrow::Cow<T> exists only for sized T and cannot be instantiated for str or slices"],
         parts,
         run,
